@@ -101,7 +101,7 @@ def check(ctx, replay=None):
     rng = ctx.rng
     d = os.path.join(BUILD, "e2e", "c07")
     os.makedirs(d, exist_ok=True)
-    goals, meta, viol, nfun, samples = [], [], 0, 0, []
+    goals, meta, viol, nfun, samples, skipped_panics = [], [], 0, 0, [], []
     def violate(key, obj):
         nonlocal viol
         if len(ctx.violations) < 4:
@@ -117,6 +117,15 @@ def check(ctx, replay=None):
             # every write-out return shape, with parameters before the writer and on every kind of receiver
             for wi, (selfk, ps) in enumerate(((None, []), ("ref", [("a", ("prim", "u8"))]), ("mut", [("a", ("prim", "i64")), ("b", ("prim", "f32"))]))):
                 methods.append({"name": f"woptunit{wi}", "self": selfk, "params": ps, "ret": ("optunit",), "write": True, "rets": [None, True, None]})
+            # structs named like the dart:ffi / JNA spellings of primitives, in the same optional / fallible arms as those primitives
+            # (record types such as _ResultXVoid are shared by name)
+            for sn in ("Size", "Bool", "Double", "Int32", "Uint8", "Long", "Float"):
+                mod.structs[sn] = [("width", ("prim", "f64")), ("height", ("prim", "f64"))]
+                for nm, selfk, ps, rt in ((f"optst_{sn.lower()}", "ref", [], ("opt", "std", ("struct", sn))), (f"resst_{sn.lower()}", None, [], ("res", ("struct", sn), ("unit",))),
+                                          (f"resse_{sn.lower()}", "ref", [], ("res", ("unit",), ("struct", sn)))):
+                    if backend == "kotlin" and nm.startswith("resse_"):
+                        continue          # Kotlin wants an `error` attribute on struct error types (recorded C15 finding)
+                    methods.append({"name": nm, "self": selfk, "params": ps, "ret": rt, "write": False, "rets": [mod.rand_value(rt) for _ in range(3)]})
             # every primitive as the payload of an optional / fallible return and as a plain return (record shapes per primitive)
             for pn in abigen.PRIMS:
                 if pn in ("i128", "u128"):
@@ -130,6 +139,7 @@ def check(ctx, replay=None):
             q = e2e.run_tool(backend, path, out, config=["lib_name=somelib", "kotlin.domain=dev.x"])
             if q.returncode != 0:
                 if "panicked" in q.stderr:
+                    skipped_panics.append(backend)
                     continue      # crashes are C15's business
                 violate(f"tool:{backend}", {"what": f"diplomat-tool {backend} rejects a bridge inside its own profile: {q.stderr[-500:]}", "lib_rs": src[:3000]}); continue
             qc = e2e.run_tool("c", path, os.path.join(d, "out_c"))
@@ -164,6 +174,8 @@ def check(ctx, replay=None):
             if bi == 0:
                 k = list(P.natives)[5] if len(P.natives) > 5 else None
                 samples.append({"backend": backend, "symbol": k, "declared": P.natives.get(k)})
+    if skipped_panics:
+        raise MachineryError(f"C07: diplomat-tool panicked on {len(skipped_panics)} generated bridge(s) ({skipped_panics}): nothing could be compared for them")
     fails = run_shards(PROP, HEADER, goals, per_shard=60) if goals else []
     seen = set()
     for f in fails:
